@@ -29,6 +29,7 @@ IsInt(v) == v.t = "int"
 IsFlt(v) == v.t = "flt"
 IsStr(v) == v.t = "str"
 IsNum(v) == IsInt(v) \/ IsFlt(v)
+IsNumeralStr(v) == v.t = "str" /\ v.s \in {"7", "12", "3"}        \* the decimal numerals of the string pool
 
 \* small repeat counts only (astronomically large allocations are outside the guarantee)
 SmallNat(l) == IF \A i \in 3..8 : l[i] = 0 THEN l[1] + 256 * l[2] ELSE 70000
@@ -65,6 +66,9 @@ Binary(op, a, b) ==
             [] op = ">"  -> Prim("FLt", b, a)
             [] op = ">=" -> Prim("FLe", b, a)
             [] OTHER -> OpenV)                                          \* % & | << >> on floats, == (C06): not stated here
+    \* "as soon as one operand is a float": also when the other one is a string that is a decimal numeral (it is read as that number)
+    [] IsNumeralStr(a) /\ IsFlt(b) /\ op = "-" -> Prim("FSub", a, b)
+    [] IsFlt(a) /\ IsNumeralStr(b) /\ op = "-" -> Prim("FSub", a, b)
     [] IsStr(a) /\ IsStr(b) /\ op = "+" -> StrV(a.s \o b.s)
     [] IsStr(a) /\ IsInt(b) /\ op = "+" -> StrV(a.s \o I!ToDecimal(b.l))
     [] IsInt(a) /\ IsStr(b) /\ op = "+" -> StrV(I!ToDecimal(a.l) \o b.s)
